@@ -12,7 +12,8 @@ for p in "$@"; do
     out=$(VERIF_REPO=$W VERIF_OUT=$W-out ./check $c --tier quick 2>&1 | grep -a -v "^WARNING\|^KNOWN-FINDING")
     rc=$(echo "$out" | grep -a -c "^VIOLATION")
     inc=$(echo "$out" | grep -a -c "^INCONCLUSIVE")
-    if [ "$rc" != "0" ] || [ "$inc" != "0" ]; then echo "--- $p/$c: violations=$rc inconclusive=$inc"; echo "$out" | grep -a -v "^VIOLATION" | cut -c1-600 | head -8; mkdir -p /tmp/neutral-keep/$p-$c; cp -r $W-out/replays/$c /tmp/neutral-keep/$p-$c/ 2>/dev/null; fi
+    ok=$(echo "$out" | grep -a -c "^OK property=$c")
+    if [ "$rc" != "0" ] || [ "$inc" != "0" ] || [ "$ok" != "1" ]; then echo "--- $p/$c: violations=$rc inconclusive=$inc ok=$ok"; echo "$out" | grep -a -v "^VIOLATION" | cut -c1-600 | head -8; mkdir -p /tmp/neutral-keep/$p-$c; cp -r $W-out/replays/$c /tmp/neutral-keep/$p-$c/ 2>/dev/null; fi
   done
   echo "=== $p done $(date +%T)"
   git -C /repo worktree remove --force $W; rm -rf $W-out
